@@ -127,6 +127,14 @@ func (s *Service) Handshake(ctx context.Context, stream p2p.Stream, peerMultiadd
 		return nil, fmt.Errorf("read synack message: %w", err)
 	}
 
+	// the sub-messages are optional on the wire: a peer may leave them out
+	if resp.Syn == nil {
+		return nil, ErrInvalidSyn
+	}
+	if resp.Ack == nil || resp.Ack.Address == nil {
+		return nil, ErrInvalidAck
+	}
+
 	observedUnderlay, err := ma.NewMultiaddrBytes(resp.Syn.ObservedUnderlay)
 	if err != nil {
 		return nil, ErrInvalidSyn
